@@ -1,6 +1,6 @@
 (** C01 — Each generated input is benchmarked once; each value is dropped once.
     Statements only; each closed by [exact] of a lemma in Proofs/Sample*.v. *)
-From DivanV Require Import Base.Res Model.Sample Proofs.Sample Proofs.SamplePlace Proofs.SamplePanic Proofs.SampleMeaning.
+From DivanV Require Import Base.Res Model.Sample Proofs.Sample Proofs.SamplePlace Proofs.SamplePanic Proofs.SampleMeaning Proofs.SampleRounds.
 Local Open Scope nat_scope.
 
 (** For all six entry points [e], all declared type shapes [sh] ({ZST, sized} x
@@ -188,3 +188,26 @@ Theorem C01_unwind_after_gen_panic : forall e sh n cs u k,
               /\ Forall (fun a => a <> GuardWait) ran.
 Proof. exact unwind_after_gen_panic. Qed.
 Print Assumptions C01_unwind_after_gen_panic.
+
+(** Explicit or tuned sample size.  A run is, per thread, the concatenation of
+    sample programs of sizes [n_0, n_1, ...] (with a tuned size: 1, 2, 4, ...
+    then the size reached; which sizes is C19's subject).  For EVERY list of
+    sizes, every round — identified by the global ids it carries — passes the
+    per-sample monitor configured with the run's one counter set and the
+    round's own size (so every value of every round is shown once to every
+    registered counter), and the timed-section decomposition; and every round's
+    program respects the cell discipline. *)
+Theorem C01_rounds_log_is_concat : forall c t sizes base,
+  thread_log_rounds c t sizes base = concat (round_logs c t sizes base).
+Proof. exact thread_log_rounds_concat. Qed.
+Print Assumptions C01_rounds_log_is_concat.
+
+Theorem C01_rounds_discipline : forall c t sizes base,
+  sb_samples_sizes c t base sizes (round_logs c t sizes base) = true.
+Proof. exact rounds_discipline. Qed.
+Print Assumptions C01_rounds_discipline.
+
+Theorem C01_rounds_exec : forall e sh cs u sizes,
+  Forall (fun n => exec_ok (sample_prog e sh n cs u) = true) sizes.
+Proof. exact rounds_exec. Qed.
+Print Assumptions C01_rounds_exec.
